@@ -2,6 +2,8 @@
 (separate from the checker: its own PYTHONHASHSEED, working directory, source and output paths).
 spec: {"cwd": dir, "cases": [{"id":..., "files": {...}, "root": "root.yaml", "src": dir, "out": dir, "name": str, "kw": {...}}],
        "relative": bool   - root file and output directory are named by relative paths,
+       "one_by_one": true - one compilation per requested output instead of one for all six; "groups" - two compilations
+                            (C, MATLAB, combined / Python, JavaScript, info),
        "shared_out": dir  - every closure is compiled into this ONE directory (all sources are written first, so every
                             definition file is older than whatever an earlier compilation left there); the outputs are
                             copied to the case's own directory afterwards}"""
@@ -37,8 +39,15 @@ def main():
             root = os.path.relpath(root)
             out = os.path.relpath(out)  # ... and the output directory by a relative path as well
         try:
-            valx.compile_file(root, c["name"], out, black=c.get("black", True), python=True, javascript=True, matlab=True, c_lang=True,
-                              info=True, combined=True, **c.get("kw", {}))
+            targets = ["python", "javascript", "matlab", "c_lang", "info", "combined"]
+            if spec.get("one_by_one") == "groups":
+                for grp in (["c_lang", "matlab", "combined"], ["python", "javascript", "info"]):
+                    valx.compile_file(root, c["name"], out, black=c.get("black", True), **{t: True for t in grp}, **c.get("kw", {}))
+            elif spec.get("one_by_one"):
+                for t in targets:
+                    valx.compile_file(root, c["name"], out, black=c.get("black", True), **{t: True}, **c.get("kw", {}))
+            else:
+                valx.compile_file(root, c["name"], out, black=c.get("black", True), **{t: True for t in targets}, **c.get("kw", {}))
             res[str(c["id"])] = "ok"
         except Exception as e:
             res[str(c["id"])] = f"{type(e).__name__}: {str(e)[:200]}"
